@@ -391,7 +391,9 @@ Decide(op, a) ==
 -----------------------------------------------------------------------------
 (* Argument domains.                                                         *)
 
-ScopeSeqs == {<<"openid">>, <<"openid", "offline_access">>, <<"openid", "email", "offline_access">>}
+\* scope lists are sequences as sent: a value may be repeated ("openid openid offline_access" is legal and stored verbatim); what is
+\* granted is the SET of values
+ScopeSeqs == {<<"openid">>, <<"openid", "offline_access">>, <<"openid", "email", "offline_access">>, <<"openid", "openid", "offline_access">>}
 Challs == {"none", "plain:v1", "s256:v1"}
 Verifiers == {"none", "v1", "v2"}
 
